@@ -65,6 +65,7 @@ public:
   }
 
   long tell() { return ftell(fp); }
+  bool is_eof() { return feof(fp) != 0; }
   void set(long offset) { fseek(fp, offset, SEEK_SET); }
   void seek(long offset, int whence) { fseek(fp, offset, whence); }
   void skip(long offset) { fseek(fp, offset, SEEK_CUR); }
